@@ -1,6 +1,7 @@
 import ExponaxModel.Proofs.LerayAlgebra
 import ExponaxModel.Generated.Etdrk
 import ExponaxModel.Proofs.NonlinFunsEq
+import ExponaxModel.Proofs.SpectralOpsEq
 /-
 C10 — incompressibility is enforced and preserved.
 
@@ -133,5 +134,15 @@ theorem C10_generated_projection (c : Nonlin.Cfg ℂ) (uh : Nonlin.MC ℂ) (m : 
       Gen.NonlinFuns.ProjectedConvection3dKolmogorov_call c m gam uh = Nonlin.projected3d c (some (m, gam)) uh) :=
   ⟨NonlinFunsEq.Leray_call_eq c uh, fun h => NonlinFunsEq.ProjectedConvection3d_call_eq c h uh,
    fun h hm => NonlinFunsEq.ProjectedConvection3dKolmogorov_call_eq c h m hm gam uh⟩
+
+/-! ### `exponax.make_incompressible`, regenerated from `_spectral.py` on every run, is the Leray projection of the
+theorems above between the model transforms -/
+open Exponax.SpectralOpsEq in
+theorem C10_generated_make_incompressible (D N : ℕ) (hD : 1 ≤ D) (hN : 0 < N) (field : MC ℂ) :
+    Gen.SpectralOps.make_incompressible D N D "ij" field =
+      tabC D (fun i => Transform.irfftnM D N
+        ((leray (cfg D N 1) (tabC D (fun j => Transform.rfftnM D N (field.getD j #[])))).getD i #[])) :=
+  make_incompressible_eq D N hD hN field
+
 
 end Exponax
